@@ -1247,6 +1247,123 @@ pub proof fn lemma_crash_append_meaning(o: LogInnerManager, img: Seq<u8>, body: 
     assert(img.skip(4096) =~= m.recs());
 }
 
+// ------------------------------------------------------------------ C04: crash points of a truncation
+/// C04, truncation: at every instant between the two zeroing writes of `strip_log_to` the disk holds a PREFIX of the log as it
+/// was that is at least as long as the cut asks for (the removal is not acknowledged yet: the longer log is a legal outcome),
+/// with the records below the cut byte for byte
+pub open spec fn crash_ok_strip(o: LogInnerManager, img: Seq<u8>, k: nat) -> bool {
+    exists|m: LogInnerManager| #[trigger] image_of(img, m) && m.header == o.header && m.start_index == o.start_index
+        && k <= m.msg_count <= o.msg_count
+        && (forall|j: nat| j <= m.msg_count ==> #[trigger] scan(m.recs(), j) == scan(o.recs(), j))
+        && m.recs().take(scan(o.recs(), k).0) == o.recs().take(scan(o.recs(), k).0)
+}
+
+/// the index part of strip_step: entries above p popped, their bytes zeroed
+pub open spec fn strip_idx_shape(o: LogInnerManager, a1: Seq<u8>, p: int) -> bool {
+    let ix = o.indexs@;
+    let a0 = o.index_file.contents();
+    let nc = o.index_cursor - idx_bytes_after(ix, p);
+    &&& a1.len() == a0.len()
+    &&& forall|i: int| 0 <= i < a0.len() ==> #[trigger] a1[i] == (if nc <= i < o.index_cursor { 0u8 } else { a0[i] })
+}
+pub open spec fn strip_data_shape(o: LogInnerManager, d1: Seq<u8>, k: nat) -> bool {
+    let d0 = o.data_file.contents();
+    let dc = 4096 + scan(o.recs(), k).0;
+    &&& d1.len() == d0.len()
+    &&& forall|i: int| 0 <= i < d0.len() ==> #[trigger] d1[i] == (if i >= dc { 0u8 } else { d0[i] })
+}
+
+/// the crash-point step of `strip_log_to`: index entries popped (data as it was, or zeroed behind the cut as well)
+pub proof fn lemma_crash_strip_step(o: LogInnerManager, cur: LogInnerManager, p: int, k: nat)
+    requires o.wf(),
+        0 <= p < o.indexs@.len(), o.indexs@[p].log_index - o.start_index <= k < o.msg_count,
+        (p + 1 < o.indexs@.len() ==> o.indexs@[p + 1].log_index - o.start_index > k),
+        // the reopen scan walks at most 0xffff records behind the last index entry
+        o.msg_count - (o.indexs@[p].log_index - o.start_index) <= 0xffff,
+        strip_idx_shape(o, cur.index_file.contents(), p),
+        cur.data_file.contents() == o.data_file.contents() || strip_data_shape(o, cur.data_file.contents(), k),
+    ensures crash_ok_strip(o, cur.disk_image(), k)
+{
+    let ix = o.indexs@;
+    let interval = o.header.index_interval as int;
+    axiom_vec_of_seq(ix.take(p + 1));
+    let v = choose|v: Vec<InnerIdxDto>| #[trigger] v@ == ix.take(p + 1);
+    let nc = (o.index_cursor - idx_bytes_after(ix, p)) as u64;
+    lemma_idx_bytes_bound(ix, p);
+    lemma_idx_area_split(ix, p);
+    lemma_idx_area_len(ix);
+    let dzero = cur.data_file.contents() != o.data_file.contents();
+    let kk: nat = if dzero { k } else { o.msg_count as nat };
+    let w = LogInnerManager { indexs: v, index_cursor: nc, index_file: cur.index_file, data_file: cur.data_file, need_seek_at_write: true,
+        msg_count: kk as u64, data_cursor: (4096 + scan(o.recs(), kk).0) as u64,
+        current_index_count: (kk - (ix[p].log_index - o.start_index)) as u16, ..o };
+    lemma_scan_mono(o.recs(), kk, o.msg_count as nat);
+    lemma_scan_bounds(o.recs(), kk);
+    lemma_scan_count(o.recs(), kk);
+    // the full step relation for the witness (strip to kk records with the index cut at p)
+    if dzero {
+        assert(strip_step(o, w, p, k));
+        lemma_strip_wf(o, w, p, k);
+        assert(w.wf_lag());
+        lemma_strip_data(o, w, p, k);
+        assert(w.recs().take(scan(o.recs(), k).0) =~= o.recs().take(scan(o.recs(), k).0)) by {
+            let c = w.data_cursor as int;
+            assert forall|i: int| 0 <= i < scan(o.recs(), k).0 implies w.recs()[i] == o.recs()[i] by {
+                assert(w.data_file.contents().take(c)[i + 4096] == o.data_file.contents().take(c)[i + 4096]);
+            }
+        }
+    } else {
+        // data untouched: the old data part, the shorter index — the index lags
+        assert(w.wf_data());
+        lemma_idx_wf_take(ix, interval, p);
+        assert forall|j: int| 0 <= j < w.indexs@.len() implies o.start_index <= #[trigger] w.indexs@[j].log_index <= o.start_index + w.msg_count by { assert(w.indexs@[j] == ix[j]); }
+        assert forall|j: int| 0 <= j < w.indexs@.len() implies #[trigger] w.indexs@[j].file_index - 4096 == scan(w.recs(), (w.indexs@[j].log_index - w.start_index) as nat).0 by { assert(w.indexs@[j] == ix[j]); }
+        assert(w.wf_points_lag());
+        lemma_strip_area_idx(o, w, p);
+        assert(w.wf_lag());
+    }
+    assert(w.disk_image() == cur.disk_image());
+    assert(image_of(cur.disk_image(), w));
+}
+
+/// lemma_strip_area for the index part alone
+pub proof fn lemma_strip_area_idx(o: LogInnerManager, n: LogInnerManager, p: int)
+    requires o.wf_area(), o.wf_points(), 0 <= p < o.indexs@.len(), n.header == o.header,
+        n.indexs@ == o.indexs@.take(p + 1), n.index_cursor == o.index_cursor - idx_bytes_after(o.indexs@, p),
+        strip_idx_shape(o, n.index_file.contents(), p),
+    ensures n.wf_area()
+{
+    let ix = o.indexs@;
+    let nx = n.indexs@;
+    lemma_idx_area_split(ix, p);
+    lemma_idx_bytes_bound(ix, p);
+    assert(ix.take(p + 1) =~= nx);
+    let a0 = o.index_file.contents();
+    let a1 = n.index_file.contents();
+    let l = idx_area(nx).len() as int;
+    assert(l == n.index_cursor - 32);
+    assert(n.index_file.contents().take(32) =~= o.index_file.contents().take(32));
+    assert(a1.subrange(32, n.index_cursor as int) =~= idx_area(nx)) by {
+        assert forall|i: int| 0 <= i < l implies a1.subrange(32, n.index_cursor as int)[i] == idx_area(nx)[i] by {
+            assert(a0.subrange(32, o.index_cursor as int)[i] == a0[i + 32]);
+            assert(idx_area(ix).take(l)[i] == idx_area(ix)[i]);
+        }
+    }
+    if nx.len() > 1 {
+        let interval = o.header.index_interval as int;
+        if p + 1 == ix.len() {
+            assert(nx =~= ix);
+        } else {
+            let pre = ix.drop_last();
+            lemma_idx_wf_take(ix, interval, ix.len() - 2);
+            assert(ix.take(ix.len() - 1) =~= pre);
+            assert(pre.take(p) =~= nx.drop_last());
+            lemma_idx_area_split(pre, p - 1);
+            lemma_idx_bytes_bound(pre, p - 1);
+        }
+    }
+}
+
 /// the records of a well-formed log are what FileMessageReader expects (canonical 32-bit length prefixes seen through its 10-byte window)
 pub proof fn lemma_ok_prefixes_store_stream(s: Seq<u8>, k: nat)
     requires ok_prefixes(s, k), has_records(s, k)
